@@ -34,6 +34,8 @@ def expect_property(p):
     lifted = {}
     for v in p["values"]:
         for tag, text in v["attrs"]:
+            if tag == "#comment":
+                continue
             if tag not in LIFTED:
                 tokens.append(("unsupported-value-element", [tag]))
                 continue
@@ -57,6 +59,8 @@ def expect_property(p):
                 tokens.append(("conflicting-%s" % k, [lifted[k]]))
             del lifted[k]
     for tag, text in p.get("extra", []):
+        if tag == "#comment":
+            continue
         tokens.append(("unsupported-property-element", [tag]))
     texts = [v["text"].strip() for v in p["values"] if v["text"] and v["text"].strip()]
     dtype = lifted.get("dtype")
@@ -74,6 +78,8 @@ def expect_section(s):
         if e is not None:
             props.append(e)
     for tag, text in s.get("extra", []):
+        if tag == "#comment":
+            continue
         tokens.append(("unsupported-section-element", [tag]))
     secs = []
     for c in s["sections"]:
@@ -93,6 +99,8 @@ def expect_document(d):
         secs.append(e)
         tokens += t
     for tag, text in d.get("extra", []):
+        if tag == "#comment":
+            continue
         tokens.append(("unsupported-document-element", [tag]))
     return {"attrs": {k: v for k, v in d["attrs"].items() if k in DOC_KEEP}, "id": valid_id(d.get("id")),
             "sections": secs}, tokens
